@@ -108,6 +108,9 @@ func (fm *ForwardMessage) DecodeMsg(dc *msgp.Reader) error {
 		return msgp.WrapError(err, "Array Header")
 	}
 
+	// a reused receiver must not keep the options of an earlier message
+	fm.Options = nil
+
 	if fm.Tag, err = dc.ReadString(); err != nil {
 		return msgp.WrapError(err, "Tag")
 	}
@@ -172,6 +175,9 @@ func (fm *ForwardMessage) UnmarshalMsg(bits []byte) ([]byte, error) {
 	if sz, bits, err = msgp.ReadArrayHeaderBytes(bits); err != nil {
 		return bits, msgp.WrapError(err, "Array Header")
 	}
+
+	// a reused receiver must not keep the options of an earlier message
+	fm.Options = nil
 
 	if fm.Tag, bits, err = msgp.ReadStringBytes(bits); err != nil {
 		return bits, msgp.WrapError(err, "Tag")
